@@ -63,16 +63,20 @@ var inlineHelper func(*ssa.Function) bool
 
 // inlState: substitutions accumulated along a path for the helper calls taken apart.
 type inlState struct {
-	sub map[ssa.Value]ssa.Value
-	inl map[*ssa.Call]*DPath
-	fns map[*ssa.Function]bool
+	sub  map[ssa.Value]ssa.Value
+	subT map[ssa.Value]*T // results of inlined calls as terms, fixed when the call is taken apart
+	inl  map[*ssa.Call]*DPath
+	fns  map[*ssa.Function]bool
 }
 
 func (x *inlState) clone() *inlState {
-	n := &inlState{sub: map[ssa.Value]ssa.Value{}, inl: map[*ssa.Call]*DPath{}, fns: map[*ssa.Function]bool{}}
+	n := &inlState{sub: map[ssa.Value]ssa.Value{}, subT: map[ssa.Value]*T{}, inl: map[*ssa.Call]*DPath{}, fns: map[*ssa.Function]bool{}}
 	if x != nil {
 		for k, v := range x.sub {
 			n.sub[k] = v
+		}
+		for k, v := range x.subT {
+			n.subT[k] = v
 		}
 		for k, v := range x.inl {
 			n.inl[k] = v
@@ -82,6 +86,23 @@ func (x *inlState) clone() *inlState {
 		}
 	}
 	return n
+}
+
+// pureExpr: a helper that only computes a value from its arguments (no stores, no calls).
+func pureExpr(sc *ssa.Function) bool {
+	for _, b := range sc.Blocks {
+		for _, ins := range b.Instrs {
+			switch x := ins.(type) {
+			case *ssa.Store, *ssa.MapUpdate, *ssa.Send, *ssa.Go, *ssa.Defer:
+				return false
+			case *ssa.Call:
+				if bi, ok := x.Call.Value.(*ssa.Builtin); !ok || (bi.Name() != "len" && bi.Name() != "cap") {
+					return false
+				}
+			}
+		}
+	}
+	return true
 }
 
 func inlinable(sc *ssa.Function) bool {
@@ -130,6 +151,7 @@ func (pe *pathEnum) leaf(kind string, blocks []*ssa.BasicBlock, conds []PathCond
 	d := &DPath{Conds: append([]PathCond{}, conds...), Blocks: append([]*ssa.BasicBlock{}, blocks...), Env: env, EndKind: kind, Ret: ret, Target: target}
 	if x != nil {
 		env.Sub = x.sub
+		env.SubT = x.subT
 		d.Inl = x.inl
 	}
 	pe.out = append(pe.out, d)
@@ -188,8 +210,11 @@ func (pe *pathEnum) inlineFrom(b *ssa.BasicBlock, i int, blocks []*ssa.BasicBloc
 				continue
 			}
 			sc := call.Call.StaticCallee()
-			if !inlinable(sc) || (x != nil && x.fns[sc]) || sc == b.Parent() {
+			if !inlinable(sc) || sc == b.Parent() {
 				continue
+			}
+			if x != nil && x.fns[sc] && !pureExpr(sc) {
+				continue // a helper with effects is taken apart once per path (its values are bound once)
 			}
 			sub := &pathEnum{limit: 64, depth: pe.depth + 1}
 			sub.walk(sc.Blocks[0], nil, nil, nil, map[*ssa.Phi]ssa.Value{}, map[*ssa.BasicBlock]bool{}, nil)
@@ -239,6 +264,19 @@ func (pe *pathEnum) inlineFrom(b *ssa.BasicBlock, i int, blocks []*ssa.BasicBloc
 				env := newTermEnv()
 				env.Phi = nphi
 				env.Sub = nx.sub
+				env.SubT = nx.subT
+				// the results as terms, fixed now (a later call of the same helper rebinds its parameters)
+				if cp.Ret != nil {
+					if len(cp.Ret.Results) == 1 {
+						nx.subT[call] = env.Term(cp.Ret.Results[0])
+					} else if call.Referrers() != nil {
+						for _, r := range *call.Referrers() {
+							if ex, ok := r.(*ssa.Extract); ok && ex.Index < len(cp.Ret.Results) {
+								nx.subT[ex] = env.Term(cp.Ret.Results[ex.Index])
+							}
+						}
+					}
+				}
 				nconds := conds[:len(conds):len(conds)]
 				dead := false
 				for _, pc := range cp.Conds {
@@ -271,6 +309,7 @@ func (pe *pathEnum) inlineFrom(b *ssa.BasicBlock, i int, blocks []*ssa.BasicBloc
 	env.Phi = phi
 	if x != nil {
 		env.Sub = x.sub
+		env.SubT = x.subT
 	}
 	last := b.Instrs[len(b.Instrs)-1]
 	switch t := last.(type) {
